@@ -612,6 +612,112 @@ pub fn check_nil(c: &NilCase) -> Verdict {
     }
 }
 
+/// Generated target types (dynde scripts): the rewrites that do not depend on the target type —
+/// comments/PIs between tokens and inside text, text <-> CDATA, character references,
+/// `<x/>` <-> `<x></x>`, attribute quote kind and spacing, prolog/trailer — must not change
+/// anything a visitor is shown.
+#[derive(Clone, Debug, Serialize, Deserialize, PartialEq)]
+pub struct DynRwCase {
+    pub value: Val,
+    pub level: u8,
+    pub expand_empty: bool,
+    pub choices: Vec<u8>,
+    pub rewrites: Vec<Rw>,
+    /// well-formed noise inserted into the ORIGINAL document (unknown subtrees, blank-led text,
+    /// CDATA, comments: c14::NOISE) at token boundaries: (position, piece)
+    #[serde(default)]
+    pub noise: Vec<(u16, u16)>,
+}
+
+const TYPE_FREE_KINDS: [u8; 8] = [0, 1, 3, 4, 5, 7, 8, 9];
+
+pub fn check_dyn(c: &DynRwCase) -> Verdict {
+    use crate::dynde;
+    let ty = c.value.ty();
+    let opts = SerOpts { level: c.level % 3, indent: None, expand_empty: c.expand_empty, root: None };
+    let original = match c.value.serialize_with(&opts) {
+        Ok(x) => x,
+        Err(_) => return Verdict::excluded("value-does-not-serialize"),
+    };
+    let mut original = original;
+    for (at, what) in &c.noise {
+        let toks = refxml::lex(original.as_bytes());
+        if toks.len() < 2 {
+            break;
+        }
+        let k = 1 + scale(*at, toks.len() - 1);
+        let pos = toks.get(k).map_or(original.len(), |l| l.start);
+        // only markup pieces: blank-led or blank-only text next to a payload text would give it
+        // leading/trailing blanks, which the documented trimming treats differently in text and CDATA
+        let pieces: Vec<&str> = super::c14::NOISE.iter().copied().filter(|p| p.starts_with('<')).collect();
+        if original.is_char_boundary(pos) {
+            original.insert_str(pos, pieces[scale(*what, pieces.len())]);
+        }
+    }
+    let script = dynde::script_from_doc(&original, &c.choices);
+    let budget = (original.len() * 8 + 256) * (script.depth() + 2) * 4;
+    let run = |doc: &str| -> Result<Result<dynde::Tr, String>, String> {
+        dynde::set_budget(budget);
+        std::panic::catch_unwind(std::panic::AssertUnwindSafe(|| dynde::from_str(&script, doc))).map_err(|p| crate::engine::panic_message(&p))
+    };
+    let base = match run(&original) {
+        Ok(Ok(t)) => t,
+        Ok(Err(_)) => return Verdict::pass(false).class("scripted-original-is-an-error"),
+        Err(_) => return Verdict::excluded("panic on the original (C07's business)"),
+    };
+    if dynde::overrun() {
+        return Verdict::excluded("visitor-step-budget-exhausted (C07's business)");
+    }
+    let mut doc = original.clone();
+    let mut applied: Vec<&'static str> = vec![];
+    const KIND: [&str; 12] = ["comment-between-tokens", "comment-inside-text", "whitespace-between-children", "text-to-cdata", "char-to-reference", "empty-vs-start-end", "attribute-order", "attribute-quotes", "attribute-spacing", "prolog-and-trailer", "unknown-attribute", "unknown-child"];
+    for rw in &c.rewrites {
+        if !TYPE_FREE_KINDS.contains(&rw.kind) {
+            continue;
+        }
+        if let Some(d) = apply(ty, &doc, rw) {
+            if d != doc {
+                applied.push(KIND[rw.kind as usize % 12]);
+                doc = d;
+            }
+        }
+    }
+    if applied.is_empty() {
+        return Verdict::pass(false).class("no-applicable-rewrite");
+    }
+    let mut v = Verdict::pass(true).class("scripted-target");
+    match run(&doc) {
+        Ok(Ok(got)) if got == base => v,
+        Ok(Ok(got)) => Verdict::fail(format!("scripted target: rewrites {:?} changed what the visitors are shown: original {:?} -> {:?}; rewritten {:?} -> {:?} | script {:?}", applied, original, base, doc, got, script)),
+        Ok(Err(e)) => Verdict::fail(format!("scripted target: rewrites {:?} made deserialization fail ({}): original {:?}; rewritten {:?} | script {:?}", applied, e, original, doc, script)),
+        Err(p) => {
+            if p.contains("entered unreachable code: BytesEnd") && script.has_early_stop() {
+                v.excluded = Some("known finding F10 of C07");
+                return v;
+            }
+            Verdict::fail(format!("scripted target: panic {} on the rewritten document {:?} | script {:?}", p, doc, script))
+        }
+    }
+}
+
+/// A pair of documents carrying the same information, for one of C07's concrete target types:
+/// the vehicle for regression witnesses with ordinary derived types (regress/C15/*.json).
+#[derive(Clone, Debug, Serialize, Deserialize, PartialEq)]
+pub struct PairCase {
+    pub target: super::c07::Target,
+    pub original: String,
+    pub rewritten: String,
+}
+
+pub fn check_pair(c: &PairCase) -> Verdict {
+    let a = super::c07::try_de_debug(&c.target, &c.original, None);
+    let b = super::c07::try_de_debug(&c.target, &c.rewritten, None);
+    match (&a, &b) {
+        (Ok(x), Ok(y)) if x == y => Verdict::pass(true).class("document-pair"),
+        _ => Verdict::fail(format!("target {:?}: {:?} -> {:?} but {:?} -> {:?}", c.target, c.original, a, c.rewritten, b)),
+    }
+}
+
 pub fn rw_strategy() -> impl Strategy<Value = Rw> {
     (0u8..12, any::<u16>(), any::<u16>()).prop_map(|(kind, site, arg)| Rw { kind, site, arg })
 }
@@ -619,6 +725,8 @@ pub fn rw_strategy() -> impl Strategy<Value = Rw> {
 fn run(ctx: &Ctx) {
     ctx.run_regress::<Case, _>(check);
     ctx.run_regress::<NilCase, _>(check_nil);
+    ctx.run_regress::<DynRwCase, _>(check_dyn);
+    ctx.run_regress::<PairCase, _>(check_pair);
     let strat = || Box::new((any_val(), 0u8..3, any::<bool>(), prop::collection::vec(rw_strategy(), 1..7)).prop_map(|(value, level, expand_empty, rewrites)| Case { value, level, expand_empty, rewrites }));
     ctx.run_proptest_with("values-x-random-rewrites", ctx.tier.pick(1_500_000, 12_000_000), strat, check);
     let nil = || {
@@ -633,6 +741,10 @@ fn run(ctx: &Ctx) {
                 .prop_map(|((target, via_reader), fields, rootsel, unknown, attr_rws)| NilCase { target, via_reader, fields, rootsel, unknown, attr_rws }),
         )
     };
+    let dynrw = || {
+        Box::new((any_val(), 0u8..3, any::<bool>(), prop::collection::vec(any::<u8>(), 0..48), prop::collection::vec((prop::sample::select(TYPE_FREE_KINDS.to_vec()), any::<u16>(), any::<u16>()).prop_map(|(kind, site, arg)| Rw { kind, site, arg }), 1..5), prop::collection::vec((any::<u16>(), any::<u16>()), 0..4)).prop_map(|(value, level, expand_empty, choices, rewrites, noise)| DynRwCase { value, level, expand_empty, choices, rewrites, noise }))
+    };
+    ctx.run_proptest_with("scripted-targets-x-type-independent-rewrites", ctx.tier.pick(800_000, 6_000_000), dynrw, check_dyn);
     ctx.run_proptest_with("nil-documents-x-unknown-children", ctx.tier.pick(400_000, 4_000_000), nil, check_nil);
     // small documents: each rewrite kind at every applicable site
     let per_type = ctx.tier.pick(60usize, 1200);
@@ -670,6 +782,14 @@ fn run(ctx: &Ctx) {
 }
 
 fn replay(stage: &str, case: &Value) -> Result<Verdict, String> {
+    if case.get("rewritten").is_some() {
+        let c: PairCase = serde_json::from_value(case.clone()).map_err(|e| e.to_string())?;
+        return Ok(check_pair(&c));
+    }
+    if case.get("choices").is_some() {
+        let c: DynRwCase = serde_json::from_value(case.clone()).map_err(|e| e.to_string())?;
+        return Ok(check_dyn(&c));
+    }
     if stage == "nil-documents-x-unknown-children" || case.get("unknown").is_some() {
         let c: NilCase = serde_json::from_value(case.clone()).map_err(|e| e.to_string())?;
         return Ok(check_nil(&c));
